@@ -50,13 +50,13 @@ def RustOpenAnswers (inp : Nat → Value) (a : OpenAnswer) : Prop :=
     = .ok (rustOpenValue a) .unit [evOpen cstrValue (inp 0)]
 
 /-- what `clockbound_open("path", err)` of the current source does (`err` NULL or valid): the same single call;
-    then a new context holding the reader, or NULL — after `err.write(e.into())` when `err` is not NULL, where the
+    then a new context holding the reader and the default error {NONE, 0, NULL}, or NULL — after `err.write(e.into())` when `err` is not NULL, where the
     `From<ShmError> for clockbound_err` of the same source turns that `e` into the error of the answer -/
 def FfiOpenAnswers (inp : Nat → Value) (errNull : Bool) (a : OpenAnswer) : Prop :=
   match a with
   | .ok rd =>
     run (ctxE inp) "ffi_lib::clockbound_open" .unit [cptr (.str "path"), errArg errNull]
-      = .ok (heapPtr (ctxOf defaultValue rd)) .unit [evOpen cstrValue (inp 0)]
+      = .ok (heapPtr (ctxOf (ffiErrValue ⟨.none, 0, none⟩) rd)) .unit [evOpen cstrValue (inp 0)]
   | .error c =>
     ∃ e : ShmErrorV,
       run (ctxE inp) "ffi_lib::clockbound_open" .unit [cptr (.str "path"), errArg errNull]
